@@ -41,7 +41,7 @@ Judge ==
                 m == {x \in Q : x.q.seglen = p.seglen /\ x.q.infos = p.infos /\ x.q.hops = ph}
                 mh == {x \in Q : x.q.hops = ph} IN
             IF p.decode # "ok" THEN {"C28:path:raw-path-undecodable"}
-            ELSE IF mh = {} THEN {"C28:path:hop-fields-are-not-a-combination-of-the-input-segments"}
+            ELSE IF mh = {} THEN {"C28:path:hops-not-from-input-segments"}
             ELSE IF \A x \in mh : x.q.seglen # p.seglen THEN {"C28:path:segment-lengths"}
             ELSE IF m = {} THEN
                 (IF \A x \in mh : InfoNoSegID(x.q.infos) # InfoNoSegID(p.infos)
